@@ -13,23 +13,15 @@ Local Open Scope N_scope.
    theorems of Properties/C01compose.v are of the form "if the operation returns Some ...".  That the checks
    never fail is PROVED for requests up to MI_LARGE_OBJ_SIZE_MAX served from a fresh segment
    (Proofs/ComposeProgress.v malloc_fresh_seg_progress = C01_compose_malloc_progress).  For a huge block
-   (its own segment) it is not proved, only observed (Examples; the replay rebuilds real huge segments): *)
+   (its own segment) it is not proved, only observed (Examples; the replay rebuilds real huge segments); note
+   that for requests within 4 MiB of MI_MAX_ALLOC_SIZE the rounded size needs 2^32 or more slices, which the
+   model's check `ss < 2^32` (slice_count is a uint32_t) refuses, so the statement needs a smaller bound: *)
 Definition compose_malloc_huge_progress_stmt : Prop :=
-  forall m size base, mem_inv m -> MI_LARGE_OBJ_SIZE_MAX < size -> size <= MI_MAX_ALLOC_SIZE ->
+  forall m size base, mem_inv m -> MI_LARGE_OBJ_SIZE_MAX < size -> size < 2^47 ->
     base_ok m base (fst (fst (fst (segment_request (block_size_of size) 0)))) = true ->
     exists m' p, mmalloc m size (ChHuge base 0) = Some (m', p).
 
-(* (2) SOUNDNESS OF THE RESOLUTION FOR ARBITRARY ADDRESSES.  compose_free_resolves shows that every address
-   inside a live block resolves to that block (completeness, which is what a valid program needs).  The
-   converse -- an address that resolves to a live block lies inside that block -- holds trivially for pages
-   without the has_aligned flag (the address must be the block start) but is not proved for the unalign path
-   when the address lies before the page start (wrap-around of `p - page_start`): *)
-Definition compose_resolve_sound_stmt : Prop :=
-  forall m p cs cp b r, mem_inv m -> live_at m cs cp b r ->
-    resolve m p = Some (cs_base cs, cp_idx cp, b) ->
-    block_addr cs cp b <= p /\ p < block_addr cs cp b + bsize (cp_page cp).
-
-(* (3) CONTENTS.  abs maps every live block to unknown bytes (`dirty`): the composite model has no byte
+(* (2) CONTENTS.  abs maps every live block to unknown bytes (`dirty`): the composite model has no byte
    contents, so "a live block keeps the bytes the program wrote" is not a theorem of this layer.  It is a
    consequence of disjointness (C01_compose_live_disjoint: a write through one live block cannot touch
    another) together with "the allocator writes only dead blocks", which is stated per layer
